@@ -9,7 +9,9 @@
   source on every run into `Gen/DfaCerts.lean` and proved there by `decide +kernel`.
 -/
 import PM.Regex
+import PM.Compile
 import Proofs.Regex
+import Proofs.CompileMain
 namespace PM.C06
 open PM
 
@@ -48,5 +50,83 @@ example : equivCheck #[⟨false, [(1, 1)]⟩, ⟨true, [(1, 1)]⟩] [0, 1] (RE.p
 example : equivCheck #[⟨false, [(1, 1)]⟩, ⟨true, []⟩] [0, 1] (RE.plus (RE.sym 1))
     [(0, [RE.plus (RE.sym 1)]), (1, [RE.star (RE.sym 1)])] = false := by
   decide +kernel
+
+/-! ### the compiler itself (`PM/Compile.lean`: `parse_expr* → nfa → null_from → dfa`), for every expression
+
+  `Expr` is the AST `parse_expr` builds, `nfa`/`nullFrom`/`dfa` reproduce the code's node numbering, edge order
+  and state order (tied exactly, per run, to the automata the real code builds).  The only hypothesis is
+  `Expr.wf`: no *empty* `choice`/`seq` list — the parser never builds one (`compile` raises `IndexError` on an
+  empty `seq`, and an empty `choice` compiles to an automaton that accepts nothing, see the `example` below);
+  the harness checks `wf` on every AST the model's parser produces and that `Expr.toRE` of it is the
+  expression `specParse` reads.
+
+  History: with the code as first pinned, these theorems needed a second hypothesis (no `{0,}` fragment
+  compiled on a shared entry node): `nfa()` put the loop of `x{0,}` on the entry node, so `(b | a{0,})`
+  accepted `a b`.  The library was repaired (`{0,}` loops on a node of its own); the model follows the
+  repaired code and the hypothesis is gone. -/
+
+/-- stage 1, the Thompson-style construction: the words read along the paths of the finished NFA from node 0 to
+    the accepting node (`ε` = an edge with `term = none`) are exactly the words of the expression -/
+theorem nfa_correct (e : Expr) (h : e.wf = true) (w : List Nat) :
+    Path (nfaState e).edges 0 w (cnt e + 1) ↔ w ∈ e.toRE.lang := PM.nfa_correct e h w
+
+/-- stage 2, `null_from`: the ε-closure without the pass-through nodes, for every NFA -/
+theorem nullFrom_spec (N : Nfa) (hN : N.WF) (n : Nat) (hn : n < N.size) (m : Nat) :
+    m ∈ nullFrom N n ↔ EpsReach N n m ∧ ¬ IsSkip N m := PM.nullFrom_spec N hN n hn m
+
+/-- stage 3, `dfa`: the subset construction simulates the NFA, for every NFA whose edge targets are nodes
+    (the fuel of `explore` is never exhausted) -/
+theorem dfa_simulates (N : Nfa) (hN : N.WF) (hstart : nullFrom N 0 ≠ []) (w : List Nat) :
+    ((dfa N).accepts w = true ↔ RunSet N (fun m => m ∈ nullFrom N 0) w (N.size - 1)) ∧
+    (((dfa N).run 0 w).isSome = true ↔ ∃ m, RunSet N (fun m => m ∈ nullFrom N 0) w m) :=
+  PM.dfa_simulates N hN hstart w
+
+/-- **complete content, for every expression**: the automaton the compiler builds accepts a sequence of child
+    types exactly when the expression, read as a regular expression, matches it -/
+theorem compile_accepts (e : Expr) (h : e.wf = true) (w : List Nat) :
+    (dfa (nfa e)).accepts w = true ↔ w ∈ (Expr.toRE e).lang := compile_accepts' e h w
+
+/-- **prefix liveness, for every expression**: a match state stays alive after a prefix exactly when the prefix
+    can be extended to a match -/
+theorem compile_live (e : Expr) (h : e.wf = true) (w : List Nat) :
+    ((dfa (nfa e)).run 0 w).isSome = true ↔ ∃ v, w ++ v ∈ (Expr.toRE e).lang := compile_live' e h w
+
+/-- the same for the automaton renumbered breadth-first over `.next` — the form in which the harness dumps the
+    real `ContentMatch` graph (compared exactly with `(dfa (nfa e)).bfs` on every run) and in which the schema
+    tables of the other properties hold it -/
+theorem compile_bfs (e : Expr) (h : e.wf = true) (w : List Nat) :
+    ((dfa (nfa e)).bfs.accepts w = true ↔ w ∈ (Expr.toRE e).lang) ∧
+    (((dfa (nfa e)).bfs.run 0 w).isSome = true ↔ ∃ v, w ++ v ∈ (Expr.toRE e).lang) := by
+  obtain ⟨h1, h2⟩ := bfs_accepts _ (compile_dfa_wf e h) w
+  rw [h1, h2]
+  exact ⟨compile_accepts' e h w, compile_live' e h w⟩
+
+/-- the empty expression (`ContentMatch.empty`) -/
+theorem compile_empty (w : List Nat) :
+    ((compileDfa none).accepts w = true ↔ w ∈ RE.eps.lang) ∧
+    (((compileDfa none).run 0 w).isSome = true ↔ ∃ v, w ++ v ∈ RE.eps.lang) := by
+  cases w with
+  | nil =>
+    refine ⟨by simp [compileDfa, Dfa.accepts, Dfa.run, Dfa.validEnd, mem_lang_eps], ?_⟩
+    simp only [Dfa.run, Option.isSome_some, true_iff]
+    exact ⟨[], (mem_lang_eps _).2 rfl⟩
+  | cons a w =>
+    refine ⟨by simp [compileDfa, Dfa.accepts, Dfa.run, Dfa.matchType, Dfa.edgesOf, mem_lang_eps], ?_⟩
+    simp [compileDfa, Dfa.run, Dfa.matchType, Dfa.edgesOf, mem_lang_eps]
+
+/-- **dead ends** (`check_for_dead_ends` on the compiled automaton): the expression passes exactly when from every
+    reachable match state a valid end can be reached through generatable node types alone -/
+theorem compile_deadEnd (e : Expr) (h : e.wf = true) (generatable : Nat → Bool) :
+    (dfa (nfa e)).hasDeadEnd generatable = false ↔
+      ∀ q, Dfa.Reach (dfa (nfa e)) q → Dfa.GenLive (dfa (nfa e)) generatable q :=
+  hasDeadEnd_iff _ (compile_dfa_wf e h) generatable
+
+/-- the hypothesis is satisfiable and non-trivial: `(a | b c)+ d{2,}` -/
+example : (Expr.seq [.plus (.choice [.name 1, .seq [.name 2, .name 3]]), .range 2 none (.name 4)]).wf = true := by
+  decide
+
+/-- … and needed: an empty `choice` compiles to an automaton that does not even accept the empty sequence,
+    while every `RE` has a word -/
+example : (dfa (nfa (.choice []))).accepts [] = false := by decide +kernel
 
 end PM.C06
